@@ -18,6 +18,12 @@
 use crate::runner::{Outcome, Summary, Violation};
 use crate::util::{self, arr, s};
 use crate::Ctx;
+use num_complex::Complex64;
+use quil_rs::expression::{
+    Expression, ExpressionFunction, FunctionCallExpression, InfixExpression, InfixOperator, PrefixExpression, PrefixOperator,
+};
+use quil_rs::instruction::{Instruction, MemoryReference};
+use quil_rs::Program;
 use quil_rs::program::type_check::type_check;
 use rand::seq::SliceRandom;
 use rand::Rng;
@@ -49,9 +55,9 @@ fn expr_text(e: &Value, salt: usize) -> String {
             if im == "0" {
                 re
             } else if re == "0" {
-                format!("{im}i")
+                format!("({im}i)")
             } else {
-                format!("({re}+{im}i)")
+                format!("({re}+({im})i)")
             }
         }
         "pi" => "pi".to_string(),
@@ -107,9 +113,77 @@ fn program_text(decls: &[Value], body: &[Value], salt: usize) -> String {
     t
 }
 
+/// abstract expression -> Expression through the public constructors, never through text: the parser
+/// cannot produce every value (a literal with a negative imaginary part, say), the API can.  Operators and
+/// functions the model leaves generic ("+", "sin") are varied with `salt` exactly as in `expr_text`.
+fn build_expr(e: &Value, salt: usize) -> Expression {
+    match s(e, "t").as_str() {
+        "num" => Expression::Number(Complex64::new(s(e, "re").parse().expect("re"), s(e, "im").parse().expect("im"))),
+        "pi" => Expression::PiConstant(),
+        "var" => Expression::Variable(s(e, "v")),
+        "addr" => Expression::Address(MemoryReference::new(s(&e["m"], "name"), util::u(&e["m"], "index"))),
+        "neg" => Expression::Prefix(PrefixExpression::new(PrefixOperator::Minus, build_expr(&e["e"], salt + 1).into())),
+        "pos" => Expression::Prefix(PrefixExpression::new(PrefixOperator::Plus, build_expr(&e["e"], salt + 1).into())),
+        "fn" => {
+            let f = s(e, "f");
+            let f = if f == "sin" { FUNCS[salt % FUNCS.len()].to_string() } else { f };
+            let f = match f.as_str() {
+                "sin" => ExpressionFunction::Sine,
+                "cos" => ExpressionFunction::Cosine,
+                "sqrt" => ExpressionFunction::SquareRoot,
+                "exp" => ExpressionFunction::Exponent,
+                "cis" => ExpressionFunction::Cis,
+                other => panic!("unknown function {other}"),
+            };
+            Expression::FunctionCall(FunctionCallExpression::new(f, build_expr(&e["e"], salt + 1).into()))
+        }
+        "inf" => {
+            let op = s(e, "op");
+            let op = if op == "+" { INFIX[salt % INFIX.len()].to_string() } else { op };
+            let op = match op.as_str() {
+                "+" => InfixOperator::Plus,
+                "-" => InfixOperator::Minus,
+                "*" => InfixOperator::Star,
+                "/" => InfixOperator::Slash,
+                "^" => InfixOperator::Caret,
+                other => panic!("unknown operator {other}"),
+            };
+            Expression::Infix(InfixExpression::new(build_expr(&e["l"], salt + 1).into(), op, build_expr(&e["r"], salt + 2).into()))
+        }
+        other => panic!("unknown expression tag {other}"),
+    }
+}
+
+/// The program under test: declarations and classical instructions are parsed from text; every SET-*/SHIFT-*
+/// instruction is a parsed template whose expression field is overwritten with the API-built expression.
+fn build_program(decls: &[Value], body: &[Value], salt: usize) -> Program {
+    let mut p = util::program(&program_text(decls, &[], salt));
+    for (pos, i) in body.iter().enumerate() {
+        let salt = salt + pos;
+        let ins = if is_setshift(i) {
+            let kind = i.get("kind").and_then(|k| k.as_str()).unwrap_or(SETSHIFT[salt % 5]);
+            let mut ins = util::instr(&format!("{kind} 0 \"rf\" 1.0"));
+            let e = build_expr(&i["e"], salt);
+            match &mut ins {
+                Instruction::SetFrequency(x) => x.frequency = e,
+                Instruction::SetPhase(x) => x.phase = e,
+                Instruction::SetScale(x) => x.scale = e,
+                Instruction::ShiftFrequency(x) => x.frequency = e,
+                Instruction::ShiftPhase(x) => x.phase = e,
+                other => panic!("template of {kind} parsed as {other:?}"),
+            }
+            ins
+        } else {
+            util::instr(&instr_text(i, salt))
+        };
+        p.add_instruction(ins);
+    }
+    p
+}
+
 /// the real verdict
 fn accepts(decls: &[Value], body: &[Value], salt: usize) -> bool {
-    let p = util::program(&program_text(decls, body, salt));
+    let p = build_program(decls, body, salt);
     if p.body_instructions().count() != body.len() {
         panic!("harness: body has {} instructions, parsed {}", body.len(), p.body_instructions().count());
     }
@@ -309,7 +383,7 @@ fn random_expr(r: &mut impl Rng, names: &[&str], d: usize) -> Value {
         match r.gen_range(0..10) {
             0..=3 => json!({"t": "addr", "m": {"name": names.choose(r).unwrap(), "index": r.gen_range(0..2)}}),
             4..=5 => json!({"t": "num", "re": pk(r, &["1.5", "2", "0.25"]), "im": "0"}),
-            6 => json!({"t": "num", "re": pk(r, &["0", "1.0"]), "im": "2.0"}),
+            6 => json!({"t": "num", "re": pk(r, &["0", "1.0"]), "im": pk(r, &["2.0", "-2.0", "0.001", "-0.001"])}),
             7..=8 => json!({"t": "pi"}),
             _ => json!({"t": "var", "v": "x"}),
         }
